@@ -70,6 +70,11 @@ func loadClaims(path string) *Claims {
 		if l == "" || strings.HasPrefix(l, "#") {
 			continue
 		}
+		if strings.HasPrefix(l, "?") {
+			// optional claim (alias of a safety obligation): checked when generated, not missed when gone
+			c.exact[strings.TrimPrefix(l, "?")] = true
+			continue
+		}
 		c.order = append(c.order, l)
 		if strings.HasSuffix(l, "*") {
 			c.wild = append(c.wild, strings.TrimSuffix(l, "*"))
@@ -155,6 +160,14 @@ func (r *Report) Finish() int {
 					}
 					if clean {
 						names = append(names, pre+kind+"#*")
+					} else {
+						// mixed: the obligations of this kind that discharge now are claimed one by one under
+						// their position-independent alias
+						for _, v := range r.Verdicts {
+							if v.Ob.Kind == kind && strings.HasPrefix(v.Ob.Name, pre) && v.Status == "discharged" && v.Ms < 3000 && v.Ob.Alt != "" {
+								names = append(names, "?"+v.Ob.Alt)
+							}
+						}
 					}
 				}
 			}
@@ -198,7 +211,7 @@ func (r *Report) Finish() int {
 	knownReported := []string{}
 	for _, v := range r.Verdicts {
 		name := v.Ob.Name
-		claimed := claims.Has(name) || r.NoClaims
+		claimed := claims.Has(name) || (v.Ob.Alt != "" && claims.Has(v.Ob.Alt)) || r.NoClaims
 		for _, run := range v.Runs {
 			solverMs += run.Ms
 		}
